@@ -268,7 +268,7 @@ pub async fn query_streams(rng: &mut Rng, out: &mut Out, stats: &mut serde_json:
     inst.close();
     // ---- generated data models and queries
     let n_models = scale(7, 40);
-    let per_model = scale(70, 250);
+    let per_model = scale(60, 250);
     let mut depth_hist = [0usize; 8];
     for mi in 0..n_models {
         let odd = if mi % 2 == 0 { 35 } else { 12 };
@@ -276,7 +276,7 @@ pub async fn query_streams(rng: &mut Rng, out: &mut Out, stats: &mut serde_json:
         let mut inst = Inst::start(&gdm.text()).await;
         for _ in 0..per_model {
             if !inst.healthy { inst.close(); inst = Inst::start(&gdm.text()).await; }
-            let qs = gen_query(rng, &gdm, odd / 2, 60, 6);
+            let qs = gen_query(rng, &gdm, odd / 2, 25, 6);
             let text = query_text(&qs);
             let o = call(inst.app.query(&text, None)).await;
             let p = inst.probe(false).await as i64;
